@@ -449,3 +449,102 @@ pub fn run_c10(tier: &str, seed: u64, report: &mut Report) {
         }
     }
 }
+
+// ---------------------------------------------------------------- C10, malformed-but-decodable values
+
+/// Rewrite one index hunk so that it still decodes but one entry carries an odd value — what a
+/// few flipped bits can produce.  Own encoder: snap + serde_json::Value.
+pub fn rewrite_hunk(path: &Path, f: impl Fn(&mut serde_json::Value)) -> bool {
+    let Ok(bytes) = std::fs::read(path) else { return false };
+    let Ok(raw) = snap::raw::Decoder::new().decompress_vec(&bytes) else { return false };
+    let Ok(mut v) = serde_json::from_slice::<serde_json::Value>(&raw) else { return false };
+    let Some(arr) = v.as_array_mut() else { return false };
+    // prefer a file entry, else the last entry
+    let idx = arr.iter().position(|e| e["kind"] == "File").unwrap_or(arr.len().saturating_sub(1));
+    if arr.is_empty() {
+        return false;
+    }
+    f(&mut arr[idx]);
+    let out = snap::raw::Encoder::new().compress_vec(&serde_json::to_vec(&v).unwrap()).unwrap();
+    std::fs::write(path, out).unwrap();
+    true
+}
+
+pub fn run_c10_malformed(tier: &str, seed: u64, report: &mut Report) {
+    let thorough = tier == "thorough";
+    let n_scen = if thorough { 6 } else { 2 };
+    type Edit = (&'static str, fn(&mut serde_json::Value));
+    let edits: Vec<Edit> = vec![
+        ("apath-double-slash", |e| { let a = e["apath"].as_str().unwrap_or("/x").to_string(); e["apath"] = json!(format!("{a}//y")); }),
+        ("apath-trailing-slash", |e| { let a = e["apath"].as_str().unwrap_or("/x").to_string(); e["apath"] = json!(format!("{a}/")); }),
+        ("apath-dotdot", |e| { e["apath"] = json!("/../escape"); }),
+        ("apath-no-leading-slash", |e| { e["apath"] = json!("relative"); }),
+        ("apath-empty", |e| { e["apath"] = json!(""); }),
+        ("nanos-2^31", |e| { e["mtime_nanos"] = json!(2147483648u64); }),
+        ("nanos-2e9", |e| { e["mtime_nanos"] = json!(2000000000u64); }),
+        ("mtime-huge", |e| { e["mtime"] = json!(9_000_000_000_000_000_000i64); }),
+        ("mtime-min", |e| { e["mtime"] = json!(i64::MIN); }),
+        ("kind-unknown", |e| { e["kind"] = json!("Unknown"); }),
+        ("symlink-without-target", |e| { e["kind"] = json!("Symlink"); e.as_object_mut().unwrap().remove("target"); }),
+        ("dir-with-addrs", |e| { e["kind"] = json!("Dir"); }),
+        ("addr-len-huge", |e| { if let Some(a) = e["addrs"].as_array_mut() { if let Some(x) = a.first_mut() { x["len"] = json!(1u64 << 40); } } }),
+        ("addr-start-huge", |e| { if let Some(a) = e["addrs"].as_array_mut() { if let Some(x) = a.first_mut() { x["start"] = json!(u64::MAX - 1); } } }),
+        ("mode-huge", |e| { e["unix_mode"] = json!(4294967295u64); }),
+        ("user-nonexistent", |e| { e["user"] = json!("no-such-user-xyz"); e["group"] = json!("no-such-group-xyz"); }),
+    ];
+    for sidx in 0..n_scen {
+        let case_seed = seed.wrapping_mul(32452843).wrapping_add(sidx as u64);
+        let (sc, case_id) = scenario(case_seed, report, "dmg-prefix");
+        let newest = all_bands(&sc.pre_state).into_iter().max().unwrap_or(0);
+        let hunk_rel = format!("{}/i/00000/000000000", band_name(newest));
+        let mut session = Session::new();
+        let mut pend: Vec<(Value, RunResult, usize, &'static str)> = Vec::new();
+        for (name, f) in &edits {
+            let arch = fresh_copy(&sc, "mal");
+            if !rewrite_hunk(&arch.join(&hunk_rel), f) {
+                remove_copy(&arch);
+                continue;
+            }
+            let case = json!({"scenario": case_id, "file": hunk_rel, "malformed": name});
+            report.case(&format!("malformed/{case_seed}/{name}"), true);
+            report.hit(&format!("malformed:{name}"));
+            let (state, _) = abstract_archive(&arch);
+            let undecodable = !state_map(&state).get(&hunk_rel).map(|v| v.starts_with("hunk:")).unwrap_or(false);
+            if undecodable {
+                report.hit("malformed:became-undecodable");
+            }
+            let a = arch.clone();
+            let l = with_timeout(30, move || real_list(&a, &Sel::Band(newest), "/", &[], IceptConfig::default()));
+            let a = arch.clone();
+            let w = sc.run.work.path().to_path_buf();
+            let r = with_timeout(30, move || restore_observe(&a, &w, &Sel::Band(newest), "mal").0);
+            let a = arch.clone();
+            let v = with_timeout(30, move || real_validate(&a, false, IceptConfig::default()));
+            let a = arch.clone();
+            let src = sc.run.src.clone();
+            let b = with_timeout(60, move || real_backup(&a, &src, &BackupParams { max_entries_per_hunk: 3, max_block_size: 8, small_file_cap: 6, owner: true, exclude: vec![] }, IceptConfig::default()));
+            for (op, res) in [("list", &l), ("restore", &r), ("validate-full", &v), ("backup", &b)] {
+                match res {
+                    None => report.oracle_fail(&format!("malformed:hang:{op}:{name}"), case.clone(), "an operation did not terminate on an archive with an odd but decodable index value", json!(op)),
+                    Some(x) if x.result.starts_with("result panic") => report.oracle_fail(&format!("malformed:panic:{op}:{name}"), case.clone(), "an operation crashed on an archive with an odd but decodable index value", json!({"op": op, "panic": trunc(&x.result)})),
+                    _ => {}
+                }
+            }
+            // model on the same abstract state (list and validate; restore errors are compared store-level)
+            session.load_store(&state);
+            if let Some(l) = l {
+                let i = session.push(format!("list {} s:2f 0", band_name(newest)));
+                pend.push((case.clone(), l, i, "malformed:list"));
+            }
+            if let Some(v) = v {
+                let i = session.push("validate full".into());
+                pend.push((case.clone(), v, i, "malformed:validate"));
+            }
+            remove_copy(&arch);
+        }
+        let answers = session.run();
+        for (case, real, i, sig) in &pend {
+            compare_run(report, sig, case, real, &parse_answer(&answers[*i]), &CmpOpts { errors_unordered: true, ..Default::default() });
+        }
+    }
+}
